@@ -191,6 +191,18 @@ Section Input.
     Ok cfg.
 End Input.
 
+(* get_config_input(user_cfg): `cfg = {}; if "input" in user_cfg: cfg["input"] = user_cfg["input"]` *)
+Definition get_config_input (user : jv) : res jv :=
+  match user with
+  | JDict d => match lookup "input" d with Some v => Ok (JDict [("input", v)]) | None => Ok (JDict []) end
+  | JList l =>                               (* membership, then list["input"] -> TypeError *)
+    if existsb (fun x => match x with JStr k => String.eqb k "input" | _ => false end) l
+    then Raise EType else Ok (JDict [])
+  | JStr s =>                                (* substring test, then str["input"] -> TypeError *)
+    match String.index 0 "input" s with Some _ => Raise EType | None => Ok (JDict []) end
+  | _ => Raise EType                         (* argument of type ... is not iterable *)
+  end.
+
 (* ---- pandora.main / check_conf as sequences of calls (names from Gen/InputFlow.v): the
    calls run in order and the first one that raises ends the run. *)
 Section Seq.
